@@ -3,7 +3,8 @@
    make_{icarus,daedalus}_bootstrap_witness) and fresh (the canonical datum writer of C01) are universally
    quantified: no law about them is used. *)
 From CSL Require Import Base.Prelude Cbor.Head Cbor.Item Cbor.ItemProofs
-  Fixed.CborEv Fixed.CborEvProofs Fixed.DatumBytes Fixed.DatumBytesProofs Fixed.FixedTx Fixed.FixedTxProofs.
+  Fixed.CborEv Fixed.CborEvProofs Fixed.DatumBytes Fixed.DatumBytesProofs Fixed.FixedTx Fixed.FixedTxProofs
+  Fixed.FuelProofs.
 Local Open Scope N_scope.
 
 (* the byte-range capture (deserilized_with_orig_bytes) returns exactly the bytes its inner reader consumed *)
@@ -154,6 +155,18 @@ Theorem C04_set_body_hash_old_refuted :
     hash_inv Hid (run_ops Hid no_vk no_bw [OSetBody b] tx).
 Proof. exact old_set_body_hash_refuted. Qed.
 Print Assumptions C04_set_body_hash_old_refuted.
+
+(* fuel is never the reason for a rejection: "the model decoder accepts bs" depends on bs alone *)
+Theorem C04_no_fuel_rejection :
+  (forall (H : bytes -> bytes) bs, decode_fixed H bs <> OutOfFuel) /\
+  (forall bs, decode_wits bs <> OutOfFuel) /\
+  (forall bs, decode_pd bs <> OutOfFuel) /\
+  (forall (H : bytes -> bytes) bs, decode_fixed_body H bs <> OutOfFuel) /\
+  (forall (H : bytes -> bytes) sign_vkey sign_boot o tx, apply_op H sign_vkey sign_boot o tx <> OutOfFuel).
+Proof.
+  exact (conj decode_fixed_noof (conj decode_wits_noof (conj decode_pd_noof (conj decode_fixed_body_noof apply_op_noof)))).
+Qed.
+Print Assumptions C04_no_fuel_rejection.
 
 Check sample_tx_accepted.
 Check sig_ops_example.
